@@ -159,6 +159,37 @@ def signature(rr, hang=False, text=""):
     return "signal%s|%s" % (rr.signal, common.h(text))
 
 
+def deep_signature(case, stage, rr, hang):
+    """silent signals and hangs carry no message: derive a root-cause signature from a debugger backtrace (top souffle frames) resp.
+    from the transformers that keep reporting [changed] in the -v log; falls back to the exact input text"""
+    args = ["--show=transformed-ram"] if stage == "front end" else ["-D", "out"]
+    with Scratch("c14s") as d:
+        write_files(d, {"p.dl": case["text"].encode("utf-8", "surrogateescape")})
+        os.makedirs(os.path.join(d, "out"), exist_ok=True)
+        if hang:
+            r = common.run([common.SOUFFLE, "--no-preprocessor", "-v"] + args + list(case["variant"]) + ["p.dl"], cwd=d, timeout=8)
+            names = re.findall(r"^([A-Za-z]+(?:Transformer|Checker|Analysis)?) time: .*\[changed\]", r.out, re.M)
+            tail = sorted(set(names[-12:]))
+            if tail:
+                return "hang|still changing: " + ",".join(tail)[:150]
+            return "hang|" + common.h(case["text"])
+        r = common.run(["gdb", "-batch", "-ex", "run", "-ex", "bt 12", "--args", common.SOUFFLE, "--no-preprocessor"] + args +
+                       list(case["variant"]) + ["p.dl"], cwd=d, timeout=120)
+        frames = []
+        for ln in r.out.split("\n"):
+            m = re.match(r"#\d+\s+(?:0x[0-9a-f]+ in )?(.*)", ln)
+            if m:
+                f = re.sub(r"\(.*", "", m.group(1))
+                f = re.sub(r"<.*", "", f)
+                names = re.findall(r"[A-Za-z_]+::[A-Za-z_~]+", f)
+                if names:
+                    frames.append(names[-1])
+        frames = [f for f in frames if not f.startswith("std::")][:4]
+        if frames:
+            return "signal%s|at " + " < ".join(frames) if False else "signal%s|at %s" % (rr.signal, " < ".join(frames))
+        return "signal%s|%s" % (rr.signal, common.h(case["text"]))
+
+
 def known_sig(sig):
     for f in common.findings_for(PID):
         if f.get("sig") == sig:
@@ -179,7 +210,7 @@ def classify(case, rr, stage, st):
     if rr.timeout:
         if stage == "evaluation":
             raise Inconclusive("timeout:evaluation")
-        sig = signature(rr, hang=True, text=case["text"])
+        sig = deep_signature(case, stage, rr, True)
         kf = known_sig(sig)
         if kf:
             if st is not None:
@@ -194,6 +225,8 @@ def classify(case, rr, stage, st):
         bad = False   # e.g. souffle's own signal handler reports an arithmetic error of the program with another status
     if bad:
         sig = signature(rr, text=case["text"])
+        if sig.startswith("signal"):
+            sig = deep_signature(case, stage, rr, False)
         kf = known_sig(sig)
         if kf:
             if st is not None:
